@@ -129,3 +129,39 @@ package handler
 //@   at call.call#1 assert[C16:context-first] arg0[0] == args[0]
 //@   ensures[C16:called-once] called("call.call#1") && result == callres("call.call#1", 0, "[]reflect.Value")
 //@   loop 1 invariant 0 <= i && i <= rvNumField(st) && len(cargs) == rvNumField(st) + 1 && isnew(ptr(cargs)) && cargs[0] == args[0]
+
+// ---------------------------------------------------------------------------
+// structFieldNames (C15): the documented array-to-field mapping
+// ---------------------------------------------------------------------------
+
+// What encoding/json does with a struct field: tagName is the part of the
+// json tag before the first comma; a field takes part unless it is unexported,
+// its whole tag is "-", or it is an untagged embedded field; its key is the
+// tag name if there is one and the Go name otherwise.
+//@ pure tagName(f reflect.StructField) Str = tagHas(f.Tag, "json") ? (idxByte(tagValue(f.Tag, "json"), ',') < 0 ? tagValue(f.Tag, "json") : substr(tagValue(f.Tag, "json"), 0, idxByte(tagValue(f.Tag, "json"), ','))) : ""
+//@ pure fieldListed(f reflect.StructField) Bool = f.PkgPath == "" && !(tagHas(f.Tag, "json") && tagValue(f.Tag, "json") == "-") && (tagName(f) != "" || !f.Anonymous)
+//@ pure fieldKey(f reflect.StructField) Str = tagName(f) != "" ? tagName(f) : f.Name
+//@ pure structOf(t Iface) Iface = rtKind(t) == 22 ? rtElem(t) : t
+// cntListed(t, n): how many of the first n fields of t take part.
+//@ spec cntListed(Iface, Int) Int
+//@ axiom forall(t Iface, n Int, n <= 0 ==> cntListed(t, n) == 0)
+//@ axiom forall(t Iface, n Int, n > 0 ==> cntListed(t, n) == cntListed(t, n - 1) + (fieldListed(rtField(t, n - 1)) ? 1 : 0))
+//@ axiom[by:cntListedMonoStep] forall(t Iface, m Int, n Int, m <= n ==> cntListed(t, m) <= cntListed(t, n))
+//@ axiom[by:cntListedStrict] forall(t Iface, k Int, n Int, 0 <= k && k < n && fieldListed(rtField(t, k)) ==> cntListed(t, k) < cntListed(t, n))
+//@ lemma[C15] cntListedStrict(t Iface, k Int, n Int)
+//@   requires 0 <= k && k < n && fieldListed(rtField(t, k))
+//@   ensures cntListed(t, k + 1) <= cntListed(t, n) && cntListed(t, k) < cntListed(t, n)
+//@ lemma[C15] cntListedMonoStep(t Iface, m Int, n Int)
+//@   requires m <= n
+//@   requires m <= n - 1 ==> cntListed(t, m) <= cntListed(t, n - 1)
+//@   ensures cntListed(t, m) <= cntListed(t, n)
+
+// structFieldNames: for a struct (or pointer to struct) type, exactly the keys
+// of the participating fields, in declaration order; false for anything else.
+//@ func structFieldNames
+//@   fresh result1
+//@   ensures[C15:struct-only] result0 == (atype != nil && rtKind(structOf(atype)) == 25)
+//@   ensures[C15:one-name-per-participating-field] result0 ==> len(result1) == cntListed(structOf(atype), rtNumField(structOf(atype)))
+//@   ensures[C15:names-in-field-order] result0 ==> forall(k int, 0 <= k && k < rtNumField(structOf(atype)) && fieldListed(rtField(structOf(atype), k)) ==> result1[cntListed(structOf(atype), k)] == fieldKey(rtField(structOf(atype), k)))
+//@   loop 1 invariant 0 <= i && i <= rtNumField(structOf(atype)) && len(names) == cntListed(structOf(atype), i) && rtKind(structOf(atype)) == 25
+//@   loop 1 invariant forall(k int, 0 <= k && k < i && fieldListed(rtField(structOf(atype), k)) ==> names[cntListed(structOf(atype), k)] == fieldKey(rtField(structOf(atype), k)))
